@@ -151,7 +151,7 @@ pub fn render_rev(f: &Family, rev: usize) -> Vec<String> {
         if f.async_trait { "#[async_trait] " } else { "" },
         r.version,
         f.name,
-        if f.send_sync { ": Send + Sync" } else { "" },
+        f.bounds(),
         f.module,
         r.module
     )];
